@@ -130,7 +130,7 @@ def obligations(tier, seed):
     # ---- layer 1: real vbi3 slicer, exact-size objects --------------------------------------------------
     q = [gp3("Y8", "ttx", 2500, 40, 0), gp3("Y8", "ttx", 2000, 32, 2), gp3("YUYV", "ttx", 3100, 46, 1),
          gp3("Y8", "vps", 4000, 44, 0), gp3("RGB16_LE", "wss", 4500, 44, 2), gp3("RGB24", "msb", 2500, 34, 0),
-         gp3("Y8", "lp", 25000, 56, 0), gp3("RGBA32_LE", "vps", 3000, 34, 1)]
+         gp3("Y8", "lp", 25000, 53, 0), gp3("RGBA32_LE", "vps", 3000, 34, 1)]
     t = list(q)
     for fmt in ("Y8", "YUYV", "UYVY", "RGB24", "RGBA32_LE", "RGBA32_BE", "RGB16_LE", "RGB16_BE", "RGBA15_LE", "ARGB15_BE"):
         for svc, rate, spl in (("ttx", 2500, 40), ("ttx", 1500, 24), ("ttx", 3100, 46), ("msb", 2000, 26), ("msb", 2700, 33),
@@ -222,7 +222,7 @@ def obligations(tier, seed):
                          "histories of any length by induction over the stated pattern-table invariant (initial/add/remove: C04 pattern obligations)",
                   outside="debug mode (vbi3_bit_slicer_slice_with_points sampling point collection)",
                   stubs=["models/c05_slicer_stub.h: bit slicer replaced by its contract (arbitrary verdict, writes <= buffer_size bytes); checks its arguments"],
-                  assumes=["pattern table invariant pat_inv (entries <= n_jobs, last way never a job, last way 0 => at most 6 jobs in the row)",
+                  assumes=["pattern table invariant st_pat_inv (entries <= n_jobs; in every row the first or the last way is not a job)",
                            "sampling parameters accepted by _vbi_sampling_par_valid_log; image object of exactly (count[0]+count[1]) x bytes_per_line bytes"],
                   grid=td, quick_grid=qd, reach=["end", "output_full", "two_records"], timeout=900, mem_gb=3, vin_size=512,
                   noflags=["--pointer-overflow-check"],   # see ub_note in the report: raw += pitch after the last interlaced row (never dereferenced)
